@@ -42,6 +42,7 @@ def run(idx: Index, rep: Report, tier: str):
     check_single_reordering(idx, rep)
     check_combinatorial_basis(idx, rep)
     check_hcb_table(idx, rep)
+    check_register_size_reaches_encoder(idx, rep)
 
 
 def check_dispatch(idx: Index, rep: Report):
@@ -119,14 +120,59 @@ def check_dispatch(idx: Index, rep: Report):
 def check_single_reordering(idx: Index, rep: Report):
     rule = "K8.spin-ordering"
     f = idx.function(f"{MT}::fermion_to_qubit_mapping")
-    calls = [c for c in own_nodes(f.node) if isinstance(c, ast.Call) and norm(c.func) == "make_up_then_down"]
-    ok = len(calls) == 1
-    guard = None
-    for n in own_nodes(f.node):
-        if isinstance(n, ast.If) and norm(n.test) == "up_then_down" and any(c in list(ast.walk(n)) for c in calls):
-            guard = n
-    rep.decide(ok and guard is not None, rule, f, calls[0] if calls else f.node, text="re-ordering applied once, iff up_then_down",
-               what="the operator is re-indexed exactly once when the all-up-then-all-down ordering is requested", reason="re-ordering applied unconditionally / more than once / never")
+    # folded with every encoder replaced by a probe that records what it was given
+    from ..consteval import Raised, Undecidable
+    from ..rules.circuitsem import make_folder
+
+    class _Probe:
+        _sa_model = True
+
+        def __init__(self, tag, src, **kw):
+            self.tag, self.src, self.kw = tag, src, kw
+            self.terms = {}
+
+    class _QOut:
+        _sa_model = True
+
+        def __init__(self, *a, **k):
+            self.terms = {}
+
+    def hook(val, types_text):
+        return True if "FermionOperator" in types_text else None
+    F = "F"
+    last = {}
+
+    def enc(tag):
+        def _f(args, kwargs):
+            src = args[0] if args else kwargs.get("fermion_operator")
+            p = _Probe(tag, src, **kwargs)
+            last["enc"] = p
+            return p
+        return _f
+    ctors = {"make_up_then_down": lambda a, k: ("UTD", a[0]), "jordan_wigner": enc("JW"), "bravyi_kitaev": enc("BK"), "jkmn": enc("JKMN"),
+             "symmetry_conserving_bravyi_kitaev": enc("SCBK"), "hard_core_boson_operator": enc("HCBOP"), "boson_to_qubit_mapping": enc("HCB"), "QubitOperator": lambda a, k: _QOut()}
+    for mp in ("JW", "BK", "JKMN", "SCBK", "HCB"):
+        for utd in (False, True):
+            last.clear()
+            fo = make_folder(idx, MT, ctors=ctors, isinstance_hook=hook)
+            try:
+                fo.run_function(f.node, {"fermion_operator": F, "mapping": mp, "n_spinorbitals": 4, "n_electrons": 2, "up_then_down": utd, "spin": 0})
+            except (Undecidable, Raised) as e:
+                raise AnalysisError(f"fermion_to_qubit_mapping not foldable for {mp}, up_then_down={utd}: {e}")
+            p = last.get("enc")
+            src = p.src if p is not None else None
+            if mp == "HCB":
+                # one qubit per *spatial* orbital: the boson operator is extracted from the interleaved operator, the ordering request does not apply
+                inner = src.src if isinstance(src, _Probe) else src
+                ok = isinstance(src, _Probe) and src.tag == "HCBOP" and inner == F
+                got = inner
+                want_txt = "the caller's operator as it is (spatial-orbital encoding: the spin ordering does not apply, and the integral extraction assumes interleaved spin-orbitals)"
+            else:
+                ok = src == (("UTD", F) if utd else F) and (mp != "SCBK" or p.kw.get("up_then_down") == utd)
+                got = src
+                want_txt = "the operator re-indexed exactly once iff the all-up-then-all-down ordering is requested"
+            rep.decide(ok, rule, f, f.node, text=f"{mp}, up_then_down={utd}: operator reaching the encoder",
+                       what="each encoder receives " + want_txt, reason=f"the {mp} encoder receives {got!r}")
     s = idx.function(f"{SCBK}::symmetry_conserving_bravyi_kitaev")
     ro = [n for n in own_nodes(s.node) if isinstance(n, ast.If) and norm(n.test) == "not up_then_down" and "reorder(fermion_operator, up_then_down_order" in full(n)]
     rep.decide(bool(ro), rule, s, ro[0] if ro else s.node, text="scBK re-orders only when the input is still interleaved",
@@ -308,3 +354,27 @@ def _validate_hcb_reference():
             me((0, 1), (0, 1)) == diag(0) + diag(1) + nn(0, 1) + nn(1, 0)
         if not ok:
             raise AnalysisError("hard-core-boson reference table disagrees with the exact paired-space matrix elements (checker defect)")
+
+
+# ---------------------------------------------------------------------------------------------------
+def check_register_size_reaches_encoder(idx: Index, rep: Report):
+    """An operator that does not touch the highest orbital must still be encoded on the full register: the register size the caller gives has to
+    reach the place where the encoding is generated.  For each encoder wrapper that takes `n_qubits`, every call that builds the encoding
+    (the third-party transform, the dictionary of Majorana images) receives that parameter - checked as dataflow from the parameter to the
+    call's arguments."""
+    rule = "K7.register-size"
+    wrappers = [("tangelo/toolboxes/qubit_mappings/bravyi_kitaev.py", "bravyi_kitaev", ("openfermion_bravyi_kitaev",)),
+                ("tangelo/toolboxes/qubit_mappings/jkmn.py", "jkmn", ("_jkmn_dict",))]
+    for rel, fname, builders in wrappers:
+        f = idx.function(f"{rel}::{fname}")
+        if "n_qubits" not in f.params:
+            raise AnalysisError(f"{fname}: parameter n_qubits not found")
+        calls = [c for c in ast.walk(f.node) if isinstance(c, ast.Call) and norm(c.func) in builders]
+        rep.floor(f"{fname}: calls generating the encoding", len(calls), 1)
+        for c in calls:
+            passed = [norm(a) for a in c.args] + [norm(k.value) for k in c.keywords]
+            ok = any(p == "n_qubits" for p in passed)
+            rep.decide(ok, rule, f, c, text=f"{fname}: {norm(c)[:70]}",
+                       what="the caller's register size reaches the call that generates the encoding, so operators that stop below the highest orbital are encoded on the full register",
+                       reason=f"`{norm(c)[:70]}` does not receive n_qubits: the register is sized from the highest orbital the operator happens to touch, so ladder operators and "
+                              f"products are encoded on different registers and the encoding is no longer one representation")
